@@ -14,7 +14,7 @@ CONSTANTS
   FixQC = TRUE
   FixConnect = TRUE
   FixStale = TRUE
-  MaxReplug = 1
+  MaxReplug = 0
 INVARIANT NoRaise
 INVARIANT ConnectTrueOnlyIfSupported
 INVARIANT ConnectFalseRecords
